@@ -380,6 +380,28 @@ func runWallet(r *evid.Run, dir string, cs int64) {
 	// the issuance protocol
 	var issuersDone int32
 	var rwg sync.WaitGroup
+	// readers of the same accounts (account listings, properties) run alongside
+	// too: they load and cache account state while issuers are between their
+	// database transaction and its commit callback
+	var reads int64
+	for q := 0; q < 4; q++ {
+		rwg.Add(1)
+		go func(q int) {
+			defer rwg.Done()
+			for i := 0; i < 200000 && atomic.LoadInt32(&issuersDone) == 0; i++ {
+				sc := scopes[(i+q)%2]
+				if _, err := f.W.AccountProperties(sc, 0); err == nil {
+					atomic.AddInt64(&reads, 1)
+				}
+				if haveImp && i%3 == 0 {
+					f.W.AccountProperties(impScope, impAcct)
+				}
+				if i%16 == 0 {
+					f.W.Accounts(sc)
+				}
+			}
+		}(q)
+	}
 	rwg.Add(1)
 	go func() {
 		defer rwg.Done()
@@ -398,6 +420,7 @@ func runWallet(r *evid.Run, dir string, cs int64) {
 	rwg.Wait()
 	f.DB.PreCommit = nil
 	r.Hit("concurrent-account-renames", int(atomic.LoadInt64(&renames)))
+	r.Hit("concurrent-account-reads", int(atomic.LoadInt64(&reads)))
 	fail := func(key, what string) {
 		ev := events
 		if len(ev) > 260 {
@@ -620,7 +643,7 @@ func raceReports() (int, string) {
 
 func main() {
 	r := evid.New(P, "exploration")
-	r.Rule("complete funded wallets (unlocked for the whole run); 8..32 goroutines x 4..8 calls (<= 180 per history) mixing NewAddress, NewChangeAddress, CurrentAddress on two key scopes of the default account and NewAddress / NewChangeAddress on an imported extended-public-key account (which issued 0..5 receiving and 0..5 change addresses beforehand; a further goroutine renames both accounts all along, rewriting their rows; two of three wallets are stopped and reopened before the round, so that its counters come from the database), CreateSimpleTx that needs change (real and dry run) and FundPsbt with and without caller-supplied inputs, while the database wrapper delays every commit callback by 0 / <=300 us / <=2 ms; each returned address is mapped to (branch, index) by the independent derivation oracle; porcupine checks each branch's history against a sequential next-index counter (CurrentAddress may return the last unused index); afterwards: no index twice, key counts not behind the issued indices, a manager opened on a copy of the database reports the same counts. All under the Go race detector; a report whose two stacks both come from issuing calls is a violation. Non-trivial = history with > 20 recorded issuing calls; distinct = distinct (seed, goroutines, calls, delay); distinct interleavings = distinct recorded histories.")
+	r.Rule("complete funded wallets (unlocked for the whole run); 8..32 goroutines x 4..8 calls (<= 180 per history) mixing NewAddress, NewChangeAddress, CurrentAddress on two key scopes of the default account and NewAddress / NewChangeAddress on an imported extended-public-key account (which issued 0..5 receiving and 0..5 change addresses beforehand; a further goroutine renames both accounts all along, rewriting their rows, and four more read account properties / listings all along; two of three wallets are stopped and reopened before the round, so that its counters come from the database), CreateSimpleTx that needs change (real and dry run) and FundPsbt with and without caller-supplied inputs, while the database wrapper delays every commit callback by 0 / <=300 us / <=2 ms; each returned address is mapped to (branch, index) by the independent derivation oracle; porcupine checks each branch's history against a sequential next-index counter (CurrentAddress may return the last unused index); afterwards: no index twice, key counts not behind the issued indices, a manager opened on a copy of the database reports the same counts. All under the Go race detector; a report whose two stacks both come from issuing calls is a violation. Non-trivial = history with > 20 recorded issuing calls; distinct = distinct (seed, goroutines, calls, delay); distinct interleavings = distinct recorded histories.")
 	r.Trusted("porcupine v1.3.0 linearizability checker", "independent BIP32 oracle for address -> index", "Go race detector")
 	r.Assume("schedules are sampled, widened at the commit-callback window only", "calls that return an error are not part of the history (they must not have consumed an index: covered by the gap/linearizability check of later calls)")
 	dir, _ := os.MkdirTemp("", "c09")
